@@ -8,6 +8,7 @@ import (
 	"fmt"
 	"io"
 	"math"
+	"strings"
 
 	"github.com/go-json-experiment/json/jsontext"
 
@@ -251,7 +252,7 @@ func (op Op) String() string {
 		return fmt.Sprintf("f64(%v)", math.Float64frombits(op.N))
 	case KF32:
 		return fmt.Sprintf("f32(%v)", math.Float32frombits(uint32(op.N)))
-	case KPushA, KPushO, KUnwind, KFill:
+	case KPushA, KPushO, KUnwind, KFill, KTwins:
 		return fmt.Sprintf("%s x%d", op.K, op.N)
 	case KNest:
 		return fmt.Sprintf("nest(%q x%d)", op.S, op.N)
@@ -363,8 +364,8 @@ const (
 	maxMacro     = 10200
 	maxCalls     = 60000
 	smallOut     = 2048 // outputs up to this size are re-compared in full after every call
-	fullDepth    = 48 // full snapshots after every call up to this depth
-	deepRejected = 24 // full rollback snapshots for this many rejected calls beyond fullDepth
+	fullDepth    = 48   // full snapshots after every call up to this depth
+	deepRejected = 24   // full rollback snapshots for this many rejected calls beyond fullDepth
 )
 
 // runner executes one case.
@@ -600,6 +601,25 @@ func Expand(m *Model, op Op, step func(Op) error) error {
 				return err
 			}
 			if err := step(Op{K: KInt, N: uint64(i)}); err != nil {
+				return err
+			}
+		}
+	case KTwins:
+		for rep := 0; rep < 2; rep++ {
+			if err := step(Op{K: KBO}); err != nil {
+				return err
+			}
+			for i := 0; i < n; i++ {
+				name := fmt.Sprintf("m%d", i)
+				name += strings.Repeat("x", 49-len(name))
+				if err := step(Op{K: KStr, S: []byte(name)}); err != nil {
+					return err
+				}
+				if err := step(Op{K: KInt, N: uint64(i)}); err != nil {
+					return err
+				}
+			}
+			if err := step(Op{K: KEO}); err != nil {
 				return err
 			}
 		}
